@@ -814,9 +814,8 @@ pub fn gen_profile(rng: &mut Rng, t: &T, kind: ProfKind) -> [Named; 2] {
     out
 }
 
-/// profile kinds for checks that only *show* a profile (named view, truncation): also weights
-/// down to subnormal doubles.  Evaluation checks do not draw these: a reach product that underflows
-/// to zero is the class of known finding F30.
+/// profile kinds with a larger share of weights down to subnormal doubles (named view checks).
+/// Since the repair of F30 (reach underflow) evaluation checks draw them too.
 pub fn pick_prof_kind_view(rng: &mut Rng) -> ProfKind {
     if rng.chance(0.12) {
         ProfKind::Tiny
@@ -833,6 +832,7 @@ pub fn pick_prof_kind(rng: &mut Rng) -> ProfKind {
         ProfKind::Zeros,
         ProfKind::Uniform,
         ProfKind::Unnormalised,
+        ProfKind::Tiny,
     ])
 }
 
